@@ -100,6 +100,7 @@ class SyntaxParserOfLark:
 		identity = {
 			'grammar_mtime': str(self.__datums.mtime(self.__setting.grammar)),
 			'mtime': str(self.__sources.mtime(source_path)),
+			'hash': self.__sources.hash(source_path),
 		}
 		decorator = self.__caches.get(basepath, identity=identity, format='json')
 		return decorator(instantiate)().entry
